@@ -201,7 +201,9 @@ def main():
     with Work(a.pid) as work:
         ctx = Ctx(a.pid, tier, seed, work)
         if a.replay:
-            return props.replay(ctx, json.loads(Path(a.replay).read_text()))
+            payload = json.loads(Path(a.replay).read_text())
+            payload["_path"] = a.replay
+            return props.replay(ctx, payload)
         try:
             with Lock():
                 ex = run_extract(work)
